@@ -16,6 +16,7 @@ def sessRes : Amqp.SessLife.Res → String
 def sessStep (st : Amqp.SessLife.St) (ws : List String) : Option (Amqp.SessLife.St × String) :=
   let ev : Option Amqp.SessLife.Event := match ws with
     | ["peerend", e] => some (.peerEnd (e == "1"))
+    | ["peerendq", e] => some (.peerEndQueued (e == "1"))
     | ["peerframe", ok] => some (.peerFrame (ok == "1"))
     | ["ctlend", e] => some (.ctlEnd (e == "1"))
     | ["linkout"] => some .linkOut
